@@ -15,18 +15,18 @@ EXTENDS PathWalk
 
 CONSTANTS MaxLen, Alphabet, StepBound
 
-VARIABLES fi, base, ps, nf, s, n
-vars == <<fi, base, ps, nf, s, n>>
+VARIABLES fi, F, base, ps, nf, s, n      \* F = Forest(fi), kept in the state (TLC does not memoise definitions)
+vars == <<fi, F, base, ps, nf, s, n>>
 
 Strings == { x \in [abs : BOOLEAN, comps : UNION { [1..k -> Alphabet] : k \in 0..MaxLen }, trail : BOOLEAN] :
                WellFormed(x) }
 
-F  == Forest(fi)
 tr == Trail(ps)
 ff == ~nf \/ Trail(ps)
 
 Init ==
   /\ fi \in 1..NForests
+  /\ F = Forest(fi)
   /\ ps \in Strings
   /\ base \in (IF ps.abs THEN {Cwds[1]} ELSE ToSet(Cwds))     \* an absolute name ignores the base
   /\ nf \in BOOLEAN
@@ -56,7 +56,7 @@ GLoop     == Name /\ ty = "link" /\ ~(last /\ ~ff) /\ s.depth = MaxLinks
 GSplice   == Name /\ ty = "link" /\ ~(last /\ ~ff) /\ s.depth < MaxLinks
 Guards == <<GFinish, GDot, GDotDot, GOut, GCreate, GNoEnt, GDescend, GFile, GNotDir, GLinkStop, GLoop, GSplice>>
 
-Keep == UNCHANGED <<fi, base, ps, nf>> /\ n' = n + 1
+Keep == UNCHANGED <<fi, F, base, ps, nf>> /\ n' = n + 1
 Finish   == GFinish   /\ s' = [s EXCEPT !.k = "ok"] /\ Keep
 Dot      == GDot      /\ s' = [s EXCEPT !.rest = tl] /\ Keep
 DotDot   == GDotDot   /\ s' = [s EXCEPT !.cur = Front(s.cur), !.rest = tl] /\ Keep
